@@ -1,1 +1,55 @@
-From BHW Require Import Model.PaperWallet.
+(* C16 -- Mainnet and testnet artefacts never mix. *)
+From BHW Require Import Lib.Base Lib.ListAux Model.Helper Model.Keys Model.Bip32M Model.WalletUtils Model.Address
+  Model.BaseWallet Model.PaperWallet Spec.Curve Spec.Slip132 Spec.Address Proofs.Address Proofs.Wallet Props.C07.
+From BHWGen Require Import Consts.
+From Coq Require String.
+Import String.StringSyntax.
+
+(* WIF: first payload byte ef on testnet, 80 on mainnet *)
+Theorem C16_wif_tag : forall kb compressed testnet,
+  exists r, wif_payload kb compressed testnet = (if testnet then 239 else 128) :: r.
+Proof. exact wif_tag. Qed.
+
+(* extended keys: the version printed for (key type, flavour, network) parses back to that very network --
+   for all twelve constants, so no flavour of one network is another network's constant *)
+Theorem C16_version_network : forall e, In e slip132 ->
+  version_int (fst (fst (fst e))) (snd (fst (fst e))) (snd (fst e)) = Ok (snd e) /\
+  version_parse (snd e) = Ok (fst e).
+Proof. intros e He. split; [apply C07_version_table_is_slip132|apply C07_version_parse_inverse]; exact He. Qed.
+
+(* coin type of every generated account path: 1' on testnet, 0' on mainnet *)
+Theorem C16_coin_type : forall purpose w account,
+  nth 1 (account_path purpose w account) 0 = (if w_testnet w then 1 else 0) + 2147483648.
+Proof. intros. apply coin_type_tag. Qed.
+
+(* addresses: version bytes / hrp of the wallet's own network (via C05_address_spec the five address methods
+   are exactly these payloads / this hrp) *)
+Theorem C16_address_tags : forall hash160 sha256 sec testnet,
+  hd 0 (p2pkh_payload hash160 sec testnet) = (if testnet then 0x6f else 0x00) /\
+  hd 0 (p2sh_p2wpkh_payload hash160 sec testnet) = (if testnet then 0xc4 else 0x05) /\
+  hd 0 (p2sh_p2wsh_payload sha256 hash160 sec testnet) = (if testnet then 0xc4 else 0x05) /\
+  segwit_hrp testnet = (if testnet then [116; 98] else [98; 99]).
+Proof. intros. destruct testnet; repeat split; reflexivity. Qed.
+
+(* a wallet built from an extended key takes its network from the version prefix (and only from it) *)
+Theorem C16_from_extended_key_network : forall alph sha256 s nd t,
+  from_extended_key alph sha256 s = Ok (nd, t) ->
+  exists n0 ver kt bp, parse_str alph sha256 true s false = Ok n0 /\ nparsed_version n0 = Some ver /\
+    version_parse ver = Ok (kt, bp, t) /\ ntestnet nd = t.
+Proof.
+  intros alph sha256 s nd t H. unfold from_extended_key in H.
+  destruct (parse_str alph sha256 true s false) as [n0|] eqn:E0; cbn [bind] in H; [|discriminate].
+  destruct (nparsed_version n0) as [ver|] eqn:E1; cbn [of_option bind] in H; [|discriminate].
+  destruct (version_parse ver) as [[[kt bp] tn]|] eqn:E2; cbn [bind] in H; [|discriminate].
+  destruct (parse_str alph sha256 (kt =? KEY_PRV) s tn) as [nd'|] eqn:E3; cbn [bind] in H; [|discriminate].
+  apply Ok_inj in H. inversion H; subst nd' tn.
+  exists n0, ver, kt, bp. repeat split; auto.
+  unfold parse_str in E3. destruct (decode_base58_checksum alph sha256 s); cbn [bind] in E3; [|discriminate].
+  apply Ok_inj in E3. subst nd. reflexivity.
+Qed.
+
+Print Assumptions C16_wif_tag.
+Print Assumptions C16_version_network.
+Print Assumptions C16_coin_type.
+Print Assumptions C16_address_tags.
+Print Assumptions C16_from_extended_key_network.
